@@ -271,7 +271,14 @@ def _main_check(ctx: Ctx) -> None:
               construct="meta sequence not merged into a range-checked target index", message="", file=fi.file, node=rc or fi.node)
     if rc is not None:
         t_ = rc.test
-        ok = isinstance(t_, ast.BoolOp) and isinstance(t_.op, ast.Or) and "len(" in src(t_) and ">=" in src(t_) and ("0 >" in src(t_) or "< 0" in src(t_))
+        from ..linear import Normaliser as _Nz, Sym as _Sym, relation as _rel, same_relation as _same
+        ok = False
+        if isinstance(t_, ast.BoolOp) and isinstance(t_.op, ast.Or) and len(t_.values) == 2:
+            rels_ = [_rel(v, _Nz()) for v in t_.values]
+            lens_ = [a for r_ in rels_ if r_ for a in r_[0].atoms() if a.startswith("len(")]
+            low = any(r_ is not None and _same(r_, _Sym.atom(target), "<") for r_ in rels_)
+            high = bool(lens_) and any(r_ is not None and _same(r_, _Sym.atom(target) - _Sym.atom(lens_[0]), ">=") for r_ in rels_)
+            ok = low and high
         ctx.check(ok, "MERGE", f"{FN}: target index must satisfy 0 <= index < number of groups", function=FN,
                   construct="meta target range check is not `index < 0 or index >= len`", message=short(t_), file=fi.file, node=rc)
 
